@@ -484,7 +484,7 @@ pub fn w9_multi_site(seed: u64, st: &mut Stats) {
     };
     let k = rng.gen_range(0, sites.len());
     sites.swap(0, k);
-    let sides = rng.gen_range(3, 9);
+    let sides = if rng.gen_range(0, 6) == 0 { [33usize, 41, 64, 100][rng.gen_range(0, 4)] } else { rng.gen_range(3, 9) };
     let shape = match LineShape::polygon(sides) {
         Ok(s) => s,
         Err(_) => return,
